@@ -315,9 +315,20 @@ def _spell(r, prog, style):
         if letter is not None:
             parts.append(letter)
         strs = []
-        for a in args:
+        for ai, a in enumerate(args):
             a = float(a)
-            if style == 'exp' and a != 0 and r.random() < 0.5:
+            is_flag = len(args) == 7 and ai in (3, 4)      # only arc commands take seven arguments
+            if style == 'traildot' and not is_flag and a == int(a) and abs(a) < 1e15 and r.random() < 0.7:
+                # digit-sequence "." with nothing after the dot (SVG: fractional-constant), optionally with an exponent
+                s = str(int(a)) + '.'
+                if a != 0 and int(a) % 10 == 0 and r.random() < 0.5:
+                    k = len(str(abs(int(a)))) - len(str(abs(int(a))).rstrip('0'))
+                    s = str(int(a))[:-k] + '.' + r.choice(['e', 'E', 'e+']) + str(k)
+                elif r.random() < 0.3:
+                    s += r.choice(['e0', 'E+0', 'e-0'])
+                if float(s) != a:
+                    s = str(int(a))
+            elif style == 'exp' and a != 0 and r.random() < 0.5:
                 s = '%e' % a
                 if float(s) != a:
                     s = repr(a)
@@ -426,7 +437,7 @@ def sample(ctx, budget=1.0, hint=None, broken=None):
                 args = [fnum() for _ in range(ARITY[l.upper()])]
             prog.append((None if implicit else l, args))
             prev = l
-        style = r.choice(['plain', 'comma', 'commaspace', 'spaces', 'sign', 'exp', 'dot', 'dotexp'])
+        style = r.choice(['plain', 'comma', 'commaspace', 'spaces', 'sign', 'exp', 'dot', 'dotexp', 'traildot'])
         d = _spell(r, prog, style)
         d0 = _spell(r, prog, 'plain')
         n_eval += 1
@@ -474,7 +485,7 @@ def sample(ctx, budget=1.0, hint=None, broken=None):
                  'exception or wrong segments', 'one Arc', 'svgpathtools.parse_path(%r)' % d)
     return {'evaluations': n_eval, 'distinct_nontrivial': len(nontriv), 'failures': fails, 'samples': samples,
             'rule': 'random programs over the 20 letters (1..10 commands after the moveto, implicit repetitions, relative arcs ending on the current point, zero radii; 15%: a curve, a command that leaves the pen in place - zero m/l/h, omitted arc, Z or M back to the start - then S/T), '
-                    'number classes int/half/tiny/huge/mixed, spellings plain/comma/comma+spaces/multi-space/sign-as-separator/exponent/leading-dot/leading-dot-with-exponent; '
+                    'number classes int/half/tiny/huge/mixed, spellings plain/comma/comma+spaces/multi-space/sign-as-separator/exponent/leading-dot/leading-dot-with-exponent/trailing-dot (with exponent); '
                     'compared with an independent reference interpreter of the SVG path grammar. distinct = distinct (number class, spelling, letter set)'}
 
 
